@@ -1,5 +1,6 @@
 import PyrexVerif.D.Detector
 import PyrexVerif.Proofs.DetectorTrig
+import PyrexVerif.Proofs.DetectorBuild
 /-!
 # C19 — detector composition visits every antenna once; triggers and clears as the union
 
@@ -266,6 +267,69 @@ theorem C19_build_kwargs_routed (subs : List (List String)) (kw : List String) :
   · intro h2; simp only [buildRoute, h, h2, if_true]
   · intro h2; simp only [buildRoute, h, h2, if_true]; simp
 
+/-- nested build routing: when every detector below a node shares one `build_antennas` signature
+(however deeply nested or however it was assembled), every one of them receives exactly the caller's
+keywords, and a keyword that signature does not take is a `TypeError` rather than being dropped. -/
+theorem C19_build_nested_uniform (ps kw : List String) (n : BNode) (hu : uniformB ps n = true) :
+    (kw.all (ps.contains ·) = true → bbuild n kw = some ((bleaves n).map (fun t => (t, kw)))) ∧
+    (kw.all (ps.contains ·) = false → bbuild n kw = none) :=
+  ⟨fun hk => bbuild_uniform_ok ps kw hk n hu, fun hk => bbuild_uniform_err ps kw hk n hu⟩
+
+/-- with differing signatures a parent hands each sub-detector the keywords of the signature it
+ADVERTISES: a leaf gets the keywords it accepts, a nested group sharing one signature gets (all of
+it) the keywords of that signature … -/
+theorem C19_build_hetero_children (subs : List BNode) (kw : List String)
+    (hm : sigsMatch (bsigL subs) = false) (i : Nat) (c : BNode) (hc : subs[i]? = some c)
+    (ps : List String) (hu : uniformB ps c = true) (r : List (Nat × List String))
+    (hr : bbuild (.comb subs) kw = some r) :
+    ∀ t ∈ bleaves c, (t, kw.filter (ps.contains ·)) ∈ r := by
+  simp only [bbuild, hm] at hr
+  have key : ∀ (l : List BNode) (j : Nat) (res : List (Nat × List String)),
+      l[j]? = some c → bbuildL l false kw = some res →
+      ∀ t ∈ bleaves c, (t, kw.filter (ps.contains ·)) ∈ res := by
+    intro l
+    induction l with
+    | nil => intro j res h; simp at h
+    | cons x xs ih =>
+      intro j res hj hres
+      simp only [bbuildL, Bool.false_eq_true, if_false] at hres
+      cases hx : bbuild x (keepKw (bsig x) kw) with
+      | none => simp [hx] at hres
+      | some a =>
+        cases hxs : bbuildL xs false kw with
+        | none => simp [hx, hxs] at hres
+        | some b =>
+          simp only [hx, hxs, Option.some.injEq] at hres
+          subst hres
+          cases j with
+          | zero =>
+            simp only [List.getElem?_cons_zero, Option.some.injEq] at hj
+            subst hj
+            have hsig := bsig_uniform ps x hu
+            rw [hsig] at hx
+            simp only [keepKw] at hx
+            have hall : (kw.filter (ps.contains ·)).all (ps.contains ·) = true := by
+              simp [List.all_eq_true]
+            rw [bbuild_uniform_ok ps _ hall x hu] at hx
+            cases hx
+            intro t ht
+            simp only [List.mem_append, List.mem_map]
+            exact Or.inl ⟨t, ht, rfl⟩
+          | succ j' =>
+            simp only [List.getElem?_cons_succ] at hj
+            intro t ht
+            exact List.mem_append_right _ (ih j' b hj hxs t ht)
+  exact key subs i r hc hr
+
+/-- … but a nested group whose own members have differing signatures advertises the generic
+`(*args, **kwargs)` and therefore receives NO keyword from such a parent: keywords accepted two levels
+down do not arrive (known finding K16, reproduced on the real code by `known_probes`). -/
+theorem C19_build_generic_group_gets_nothing :
+    bbuild (.comb [.comb [.leaf 1 ["alpha"], .leaf 2 ["beta"]], .leaf 3 ["gamma"]])
+        ["alpha", "beta", "gamma"] = some [(1, []), (2, []), (3, ["gamma"])] ∧
+    bbuild (.comb [.leaf 1 ["alpha"], .leaf 2 ["beta"]]) ["alpha", "beta"]
+        = some [(1, ["alpha"]), (2, ["beta"])] := by decide
+
 /-! ### non-vacuity: the hypotheses above are met by concrete detectors -/
 private def a1 : Ant := ⟨1, false, false, false⟩
 private def a2 : Ant := ⟨2, true, false, false⟩
@@ -287,3 +351,8 @@ example : buildRoute [["antenna_class", "p"], ["antenna_class", "q"]] ["antenna_
     some [["antenna_class"], ["antenna_class", "q"]] := by decide
 example : allDefault (.comb [d1, .lst [a3]]) = true ∧
     (trig 50 (.comb [d1, .lst [a3]]) [rmt, "x"] true).1 = .ok true := by decide
+example : uniformB ["a", "g"] (.comb [.comb [.leaf 1 ["a", "g"]], .leaf 2 ["a", "g"]]) = true ∧
+    bbuild (.comb [.comb [.leaf 1 ["a", "g"]], .leaf 2 ["a", "g"]]) ["g"] = some [(1, ["g"]), (2, ["g"])] := by decide
+example : sigsMatch (bsigL [.comb [.leaf 1 ["a"], .leaf 4 ["a"]], .leaf 2 ["b"]]) = false ∧
+    bbuild (.comb [.comb [.leaf 1 ["a"], .leaf 4 ["a"]], .leaf 2 ["b"]]) ["a", "b"]
+      = some [(1, ["a"]), (4, ["a"]), (2, ["b"])] := by decide
